@@ -127,6 +127,10 @@ def roundtrip(x, p):
         return
     data = out.getvalue()
     x.out('file-size', len(data))
+    now = regions(g)
+    for name, _, size in SECS:
+        x.check('writing leaves the cart\'s ' + name + ' region as it was',
+                len(now[name]) == size and now[name] == before[name])
     try:
         g2 = P8Formatter.from_file(hx.MemStream(data), filename='x.p8')
     except Exception as e:
